@@ -168,6 +168,7 @@ fn run(job: &Job) -> Out {
         for off in 0..=maxoff {
             let d = a.definition_at(fid, off);
             match occ_at[off].map(|k| &f.occs[k]) {
+                None if prog.lenient => bump(&mut out, "def:witness-unlisted", 1),
                 None => {
                     bump(&mut out, "def:outside-identifier", 1);
                     if let Some(d) = d {
@@ -238,6 +239,84 @@ fn run(job: &Job) -> Out {
     out
 }
 
+#[derive(Clone, Copy)]
+enum Expect {
+    /// the n-th occurrence of this text in the same file is the declaration
+    Decl(&'static str, usize),
+    /// a declaration of the prelude with this name
+    Prelude(&'static str),
+}
+
+fn nth_find(src: &str, needle: &str, n: usize) -> usize {
+    let mut from = 0;
+    for _ in 0..n {
+        from += src[from..].find(needle).expect("witness needle") + needle.len();
+    }
+    from + src[from..].find(needle).expect("witness needle")
+}
+
+/// Hand-written programs for the constructs of `lsp_helper.rs` that no generated program contains (coverage
+/// analysis 2026-09-22: constraint arguments in parameter annotations, interface definitions with output types,
+/// constraints on type parameters of type definitions, struct names in `for` patterns, qualified variant patterns,
+/// interface methods): every-offset model correspondence like any generated file, plus the listed go-to-definition
+/// answers at every byte of the listed occurrence.
+fn witnesses() -> Vec<Prog> {
+    use Expect::*;
+    let ws: Vec<(&str, &str, Vec<(&str, usize, Expect)>, Vec<(&str, usize, &str)>)> = vec![
+        ("constraint-args-in-parameter", "fn f(it: T Iterator<IteratorItem=int>) -> int { 1 }\nfn g(xs: T Iterable<IterableItem=string>, k: U Ord) -> int { 2 }\n",
+         vec![("Iterator", 0, Prelude("Iterator")), ("IteratorItem", 0, Prelude("IteratorItem")), ("Iterable", 0, Prelude("Iterable")),
+              ("IterableItem", 0, Prelude("IterableItem")), ("Ord", 0, Prelude("Ord")), ("T", 0, Decl("T", 0))],
+         vec![("1", 0, "int")]),
+        ("interface-with-output-types", "interface It3 {\n    outputtype Item3\n    outputtype Iter3 impl Iterator<IteratorItem=Item3>\n    fn mk(self) -> Iter3\n    fn first(self, d: Item3) -> Item3\n}\n",
+         vec![("Iterator", 0, Prelude("Iterator")), ("IteratorItem", 0, Prelude("IteratorItem")), ("Item3", 1, Decl("Item3", 0)), ("Iter3", 1, Decl("Iter3", 0)),
+              ("Item3", 2, Decl("Item3", 0)), ("Item3", 3, Decl("Item3", 0))],
+         vec![]),
+        ("constraints-on-type-parameters", "type Bx<T Ord> = { v: T }\ntype By<U Iterator<IteratorItem=int>> = { w: U }\ntype Ez<V Ord Hash> = Lf | Nd(V)\nlet b = Bx(1)\n",
+         vec![("Ord", 0, Prelude("Ord")), ("T", 1, Decl("T", 0)), ("Iterator", 0, Prelude("Iterator")), ("IteratorItem", 0, Prelude("IteratorItem")), ("U", 1, Decl("U", 0)),
+              ("Ord", 1, Prelude("Ord")), ("Hash", 0, Prelude("Hash")), ("V", 1, Decl("V", 0)), ("Bx", 1, Decl("Bx", 0))],
+         vec![("1", 0, "int")]),
+        ("struct-name-in-for-pattern", "type Pt = { x: int, y: int }\nfor Pt(a, b) in [Pt(1, 2)] { println(a + b) }\nlet Pt(c, d) = Pt(3, 4)\nprintln(c)\n",
+         vec![("Pt", 1, Decl("Pt", 0)), ("Pt", 2, Decl("Pt", 0)), ("a", 1, Decl("a", 0)), ("b", 1, Decl("b", 0)), ("Pt", 3, Decl("Pt", 0)), ("Pt", 4, Decl("Pt", 0)), ("c", 1, Decl("c", 0))],
+         vec![("a + b", 0, "int"), ("1", 0, "int")]),
+        ("qualified-variant-pattern", "type Cl = Rd | Gn(int)\nlet r = match Cl.Rd {\n  Cl.Rd -> 1\n  Cl.Gn(k) -> k\n}\n",
+         vec![("Cl", 1, Decl("Cl", 0)), ("Rd", 1, Decl("Rd", 0)), ("Rd", 2, Decl("Rd", 0)), ("k", 1, Decl("k", 0))],
+         vec![("k", 1, "int")]),
+        ("interface-method-and-impl", "interface It2 {\n  outputtype Item2\n  fn nxt(self) -> Item2\n}\nimplement It2 for int {\n  fn nxt(self) -> string { \"s\" }\n}\nlet q = It2.nxt(1)\n",
+         vec![("Item2", 1, Decl("Item2", 0)), ("It2", 1, Decl("It2", 0))],
+         vec![("\"s\"", 0, "string"), ("q", 0, "string")]),
+    ];
+    let mut v = vec![];
+    for (name, src, defs, types) in ws {
+        let mut f = FileOut { name: "main".into(), src: src.to_string(), ..Default::default() };
+        for (needle, nth, e) in defs {
+            let lo = nth_find(src, needle, nth);
+            let decl = match e {
+                Prelude(_) => DeclRef { file: PRELUDE_FILE, lo: 0, hi: 0, variant: false },
+                Decl(d, k) => {
+                    let dl = nth_find(src, d, k);
+                    // an enum variant's definition range is the whole variant
+                    let mut dh = dl + d.len();
+                    let variant = src[..dl].lines().last().map(|l| l.contains(" = ") && (l.contains('|') || src[dh..].trim_start().starts_with('|') || src[dh..].starts_with('('))).unwrap_or(false)
+                        && !src[..dl].ends_with("type ") && !src[..dl].ends_with('<');
+                    if variant && src[dh..].starts_with('(') {
+                        dh += src[dh..].find(')').unwrap() + 1;
+                    }
+                    DeclRef { file: 0, lo: dl, hi: dh, variant }
+                }
+            };
+            let nm = match e { Prelude(n) => n, Decl(..) => needle };
+            f.occs.push(Occ { lo, hi: lo + needle.len(), name: nm.to_string(), decl: Some(decl), what: "witness-use" });
+        }
+        for (needle, nth, ty) in types {
+            let lo = nth_find(src, needle, nth);
+            f.probes.push(TyProbe { lo, hi: lo + needle.len(), ty: ty.to_string(), what: "witness-hover" });
+        }
+        let _ = name;
+        v.push(Prog { files: vec![f], feats: vec!["witness"], lenient: true });
+    }
+    v
+}
+
 /// does the implementation answer inside a task block (D45 repaired)?
 fn probe_task() -> bool {
     catch_unwind(|| {
@@ -293,6 +372,9 @@ fn main() {
         let mut rng = Rng::new(seed);
         let prog = Gen::new(&mut rng, &opts).program();
         jobs.push(Job { idx, prog, f6_fixed });
+    }
+    for (k, prog) in witnesses().into_iter().enumerate() {
+        jobs.push(Job { idx: 100000 + k, prog, f6_fixed });
     }
     let outs = par_map(&jobs, run);
     let mut rejected = 0;
